@@ -25,11 +25,13 @@ type c12Case struct {
 	BareReceiver bool `json:"bare_receiver"`
 	BareArgument bool `json:"bare_argument"`
 	OrderOnly    bool `json:"order_only"`
+	// BareDefs: the receiver's definitions are mere identifiers (no attributes, no parent)
+	BareDefs bool `json:"bare_defs,omitempty"`
 }
 
 func init() { register("c12", checkC12) }
 
-func mkSide(cues []cueSpec, styles, regions []string, bare bool, tag string) (*astisub.Subtitles, []*astisub.Item) {
+func mkSide(cues []cueSpec, styles, regions []string, bare bool, tag string, bareDefs ...bool) (*astisub.Subtitles, []*astisub.Item) {
 	var s *astisub.Subtitles
 	if bare {
 		s = &astisub.Subtitles{}
@@ -44,9 +46,15 @@ func mkSide(cues []cueSpec, styles, regions []string, bare bool, tag string) (*a
 	}
 	for _, id := range styles {
 		s.Styles[id] = &astisub.Style{ID: id, InlineStyle: &astisub.StyleAttributes{SSAFontName: tag + id}}
+		if len(bareDefs) > 0 && bareDefs[0] {
+			s.Styles[id].InlineStyle = nil
+		}
 	}
 	for _, id := range regions {
 		s.Regions[id] = &astisub.Region{ID: id, InlineStyle: &astisub.StyleAttributes{WebVTTWidth: tag + id}}
+		if len(bareDefs) > 0 && bareDefs[0] {
+			s.Regions[id].InlineStyle = nil
+		}
 	}
 	var items []*astisub.Item
 	for i, c := range cues {
@@ -64,7 +72,7 @@ func mkSide(cues []cueSpec, styles, regions []string, bare bool, tag string) (*a
 }
 
 func checkC12(c c12Case) string {
-	a, aItems := mkSide(c.A, c.AStyles, c.ARegions, c.BareReceiver, "A")
+	a, aItems := mkSide(c.A, c.AStyles, c.ARegions, c.BareReceiver, "A", c.BareDefs)
 	if c.OrderOnly {
 		snaps := make([]itemSnap, len(aItems))
 		for i, it := range aItems {
@@ -288,6 +296,7 @@ func TestC12(t *testing.T) {
 			BRegions:     genIDs(rt, "br"),
 			BareReceiver: rapid.IntRange(0, 3).Draw(rt, "bareA") == 0,
 			BareArgument: rapid.IntRange(0, 3).Draw(rt, "bareB") == 0,
+			BareDefs:     rapid.IntRange(0, 3).Draw(rt, "baredefs") == 0,
 		}
 		if rapid.IntRange(0, 4).Draw(rt, "samefile") == 0 && len(c.A) > 0 {
 			// two readings of the same file, or two files sharing cues: the argument's cues equal cues of the receiver
